@@ -48,11 +48,17 @@ def frame(draw):
     for name in ('mv0', 'mv1'):
         cells = draw(st.lists(mv_cell(), min_size=1, max_size=5))
         cols[name] = draw(st.lists(st.sampled_from(cells), min_size=n, max_size=n))
+    wide = n >= 40 and draw(st.integers(0, 3)) == 0      # many distinct values: > 128 (first, second) combinations for <->
     for name in ('a', 'b', 'c'):
+        if wide and name in ('a', 'b'):
+            kk = draw(st.integers(11, 16))
+            seq = draw(st.permutations(list(range(kk))))
+            cols[name] = [f'{name}{seq[(i * (3 if name == "a" else 5) + i // kk) % kk]}' for i in range(n)]
+            continue
         k = draw(st.integers(1, 4))
         vals = draw(st.lists(st.sampled_from(PLAIN), min_size=k, max_size=k, unique=True))
         cols[name] = draw(st.lists(st.sampled_from(vals), min_size=n, max_size=n))
-    nums = draw(st.lists(st.sampled_from(['0', '1', '2.5', '10', '100', '', '7', '0.25', '33']), min_size=2, max_size=6))
+    nums = draw(st.lists(st.sampled_from(['0', '1', '2.5', '10', '100', '', '7', '0.25', '33', '"0.5"', '"3"', '""']), min_size=2, max_size=6))
     cols['num'] = draw(st.lists(st.sampled_from(nums), min_size=n, max_size=n))
     cols['label'] = draw(st.lists(st.sampled_from(['0', '1']), min_size=n, max_size=n))
     order = draw(st.permutations(list(cols)))
@@ -74,7 +80,11 @@ def case_multivalue(draw):
 
 @st.composite
 def case_sub(draw):
-    return {'frame': draw(frame()), 'mapping': draw(sub_specs())}
+    fr = draw(frame())
+    mapping = draw(sub_specs())
+    if max(len(set(fr['cols'][c])) for c in ('a', 'b')) > 10 and draw(st.booleans()):
+        mapping = draw(st.sampled_from(['a<->b', 'b<->a', 'a<->b;c->a']))      # > 128 (first, second) value combinations
+    return {'frame': fr, 'mapping': mapping}
 
 
 @st.composite
@@ -101,7 +111,14 @@ def case_chain(draw):
             flags['sub'] = 'False'
     if flags['order'] > 2 and flags['transformers'] != 'none':
         flags['order'] = 2
-    return {'frame': draw(frame()), 'flags': flags, 'missing': draw(st.sampled_from(MISSING_SETS)),
+    fr = draw(frame())
+    if max(len(set(fr['cols'][c])) for c in ('a', 'b')) > 10:
+        # many-valued selector columns already give > 128 two-sided pair columns: keep the rest of the chain small
+        flags['order'] = 1
+        flags['heuristic'] = 'MI-numba-randomized' if flags['heuristic'] != 'Constant' else 'Constant'
+        if flags['sub'] != 'False' and flags['sub'].count(';') >= 1:
+            flags['sub'] = flags['sub'].split(';')[0]
+    return {'frame': fr, 'flags': flags, 'missing': draw(st.sampled_from(MISSING_SETS)),
             'np_seed': draw(st.integers(0, 2**31))}
 
 
